@@ -121,8 +121,8 @@ theorem calls_ok (d : Decl) (ncpu : Nat) (g : Geometry) (hg : geometry d = some 
     simp only [geometry, Option.some.injEq] at hg
     subst hg
     cases a <;> simp [calls] at hc
-    case register occ shim =>
-      rcases hc with ⟨_, rfl⟩ | ⟨_, rfl | rfl⟩
+    case register occ =>
+      rcases hc with ⟨_, rfl⟩ | rfl | rfl
       · exact ok_rw progGeo _ _ _ _ (.inl rfl) (by decide) (by rw [prog_valueBytes]; decide)
       · exact ok_rw progGeo _ _ _ _ (.inr (.inl rfl)) (by decide) (by rw [prog_valueBytes]; decide)
       · exact ok_del progGeo _ _ (by decide)
@@ -203,8 +203,8 @@ theorem C10_exact (d : Decl) (ncpu : Nat) (g : Geometry) (hg : geometry d = some
     have hl : prog_lookup_len = valueBytes progGeo ncpu := by rw [prog_valueBytes]; decide
     have hu : prog_update_len = valueBytes progGeo ncpu := by rw [prog_valueBytes]; decide
     cases a <;> simp [calls] at hc
-    case register occ shim =>
-      rcases hc with ⟨_, rfl⟩ | ⟨_, rfl | rfl⟩
+    case register occ =>
+      rcases hc with ⟨_, rfl⟩ | rfl | rfl
       · rw [hk, hl]; exact exact_kv progGeo _ _ (by decide)
       · rw [hk, hu]; exact exact_kv progGeo _ _ (by decide)
       · rw [hk]; exact exact_k progGeo _ _
@@ -294,8 +294,8 @@ example : [Api.load, .hvGet 0, .hvSet 1, .hvGet 2].flatMap (calls 4 (.hashVars [
 example : (hvGetCallByFormat 4).ok ⟨1, 1, 8, 2, 0⟩ 4 = false := by decide
 example : [Api.dSet, .dIter 2, .dPop, .dDel].flatMap (calls 4 (.dict [8, 4, 2, 1] [8, 4, 1] 31 false)) =
     [⟨2, some 15, some 13⟩, ⟨4, none, some 15⟩, ⟨4, some 15, some 15⟩, ⟨4, some 15, some 15⟩,
-     ⟨1, some 15, some 13⟩, ⟨3, some 15, none⟩] := by decide
-example : calls 4 .progArray (.register 1 true) =
+     ⟨dict_pop_cmd, some 15, some 13⟩, ⟨3, some 15, none⟩] := by decide
+example : calls 4 .progArray (.register 1) =
     [⟨1, some 4, some 4⟩, ⟨1, some 4, some 4⟩, ⟨2, some 4, some 4⟩, ⟨3, some 4, none⟩] := by decide
 
 end Ebv.C10
